@@ -1597,6 +1597,13 @@ def driver_source(specs, status, src_root):
                          'else Except.ok (u, (rest, w.2 ++ [c])) | [] => Except.error Err.other) '
                          '(fun _ _ => Except.ok ()) (fromJ (argAt args 3))).map (fun w => (w.2, w.1.length)))')
             continue
+        if spec.get("group") == "AdapterInfo":
+            # an Info is an integer id; the source answers from a table: (request, delivered) / (request, none) = it raises
+            imports.append(f"import FinamModel.Translated.{spec['lean']}")
+            cases.append(f'  | "{spec["lean"]}" => toJ (Tr.{spec["lean"]} (α := Int) (fromJ (argAt args 0)) (fromJ (argAt args 1)) '
+                         '(fromJ (argAt args 2)) (fun r => match ((fromJ (argAt args 3)) : List (Int × Option Int)).lookup r with '
+                         '| some (some d) => Except.ok d | some none => Except.error Err.metaErr | none => Except.error Err.other))')
+            continue
         if spec.get("group") == "Canonical":
             # arrays travel as (shape, elements in C order)
             imports.append(f"import FinamModel.Translated.{spec['lean']}")
